@@ -683,7 +683,7 @@ pub fn teosd_bin() -> PathBuf {
 
 /// A listening port for teosd, taken from below the kernel's ephemeral range (so that no outgoing
 /// connection of a concurrent process can sit on it) and spread by process id.
-fn free_port() -> u16 {
+pub fn free_port() -> u16 {
     static NEXT: std::sync::atomic::AtomicU32 = std::sync::atomic::AtomicU32::new(0);
     let pid = std::process::id();
     loop {
@@ -717,6 +717,8 @@ pub struct TeosdOpts {
     pub extra_args: Vec<String>,
     /// run teosd under this command (e.g. `valgrind --error-exitcode=97 -q`)
     pub wrapper: Vec<String>,
+    /// use these (api, rpc, internal) ports instead of fresh ones (a tower that must be found again after a restart)
+    pub fixed_ports: Option<(u16, u16, u16)>,
     /// extra `key = value` lines for teos.toml
     pub extra_conf: Vec<String>,
 }
@@ -724,7 +726,7 @@ pub struct TeosdOpts {
 impl Teosd {
     pub fn spawn(datadir: &Path, cfg: &TowerCfg, btc_port: u16, opts: &TeosdOpts) -> Result<Teosd, String> {
         std::fs::create_dir_all(datadir).map_err(|e| e.to_string())?;
-        let (api_port, rpc_port, internal_port) = (free_port(), free_port(), free_port());
+        let (api_port, rpc_port, internal_port) = opts.fixed_ports.unwrap_or_else(|| (free_port(), free_port(), free_port()));
         let mut conf = format!(
             "api_bind = \"127.0.0.1\"\napi_port = {api_port}\nrpc_bind = \"127.0.0.1\"\nrpc_port = {rpc_port}\nbtc_network = \"regtest\"\nbtc_rpc_user = \"user\"\nbtc_rpc_password = \"passwd\"\nbtc_rpc_connect = \"127.0.0.1\"\nbtc_rpc_port = {btc_port}\nsubscription_slots = {}\nsubscription_duration = {}\nexpiry_delta = {}\npolling_delta = 0\ninternal_api_bind = \"127.0.0.1\"\ninternal_api_port = {internal_port}\n",
             cfg.slots, cfg.duration, cfg.grace
